@@ -86,6 +86,7 @@ func (p *Program) verifyFunc(name string) *FuncResult {
 		}
 		e.cover(name+":vacuity:requires-satisfiable", ct.Props, "true")
 	}
+	f.useLemmas("true", st)
 	results, exit, retGuard := f.run("true", st, args)
 	if exit != nil && ct != nil {
 		env := &specEnv{f: f, st: exit, old: f.entry, results: results}
@@ -136,4 +137,48 @@ func (f *Frame) harnessCall(in ssa.Instruction, callee *ssa.Function, guard stri
 		return Val{T: "0"}, true
 	}
 	return Val{}, false
+}
+
+// useLemmas: for every lemma function named in the `use` clause of the function under verification, assume its
+// contract, universally quantified over its parameters, in the given state. Sound because the lemma function is
+// itself verified for all parameters and all states and writes nothing.
+func (f *Frame) useLemmas(guard string, st *State) {
+	top := f.topFrame()
+	if top.contract == nil || len(top.contract.Uses) == 0 {
+		return
+	}
+	e := f.e
+	for _, ln := range top.contract.Uses {
+		lc := e.P.CS.Funcs[ln]
+		lf := e.P.Funcs[ln]
+		if lc == nil || lf == nil {
+			e.errorf("use %s: no such lemma function/contract", ln)
+			continue
+		}
+		if !lc.Pure {
+			e.errorf("use %s: lemma functions must be pure", ln)
+			continue
+		}
+		env := &specEnv{f: f, st: st, old: st, bound: map[string]Val{}, seqs: map[string]*seqView{}, callSite: true, names: map[string]Val{}}
+		var binders []string
+		var ranges []string
+		for _, prm := range lf.Params {
+			e.n++
+			vn := fmt.Sprintf("%s!l%d", sanitize(prm.Name()), e.n)
+			binders = append(binders, fmt.Sprintf("(%s %s)", vn, e.tt().sortOf(prm.Type())))
+			env.bound[prm.Name()] = Val{T: vn, Typ: prm.Type()}
+			if rc := e.tt().rangeConstraint(vn, prm.Type()); rc != "" && isInteger(prm.Type()) {
+				ranges = append(ranges, rc)
+			}
+		}
+		var reqs, enss []string
+		for _, r := range lc.Requires {
+			reqs = append(reqs, f.specBool(r.Expr, env))
+		}
+		for _, en := range lc.Ensures {
+			enss = append(enss, f.specBool(en.Expr, env))
+		}
+		body := implies(and(append(ranges, reqs...)...), and(enss...))
+		e.assume(guard, fmt.Sprintf("(forall (%s) %s)", strings.Join(binders, " "), body))
+	}
 }
